@@ -32,6 +32,7 @@ type c13Mon struct {
 	history  []string
 	failed   bool
 	deleted  gedcom.Nodes // root records removed by Document.DeleteNode (may be added again)
+	checks   int
 }
 
 func c13Walk(ns gedcom.Nodes, path string, f func(n gedcom.Node, path string)) {
@@ -66,6 +67,13 @@ func c13Desc(n gedcom.Node, pm map[gedcom.Node]string) string {
 // c13Views evaluates the battery on a document. Keys are position based so
 // that the live document and a fresh decode of its text can be compared.
 func c13Views(doc *gedcom.Document, pointers, tags map[string]bool) map[string]string {
+	return c13ViewsOrder(doc, pointers, tags, false)
+}
+
+// c13ViewsOrder: with rev the accessors of each individual are asked in the
+// opposite order. What a view returns must not depend on which other view was
+// read first (a cache that one accessor fills for another with different rules).
+func c13ViewsOrder(doc *gedcom.Document, pointers, tags map[string]bool, rev bool) map[string]string {
 	pm := c13Paths(doc)
 	v := map[string]string{}
 	list := func(ns interface{}) string {
@@ -114,14 +122,24 @@ func c13Views(doc *gedcom.Document, pointers, tags map[string]bool) map[string]s
 	inds := doc.Individuals()
 	for _, ind := range inds {
 		k := pm[ind]
-		v["Individual.Names:"+k] = list(ind.Names())
-		v["Individual.AllEvents:"+k] = list(ind.AllEvents())
-		v["Individual.Births:"+k] = list(ind.Births())
-		v["Individual.Deaths:"+k] = list(ind.Deaths())
-		v["Individual.Families:"+k] = list(ind.Families())
-		v["Individual.Spouses:"+k] = list(ind.Spouses())
-		v["Individual.Parents:"+k] = list(ind.Parents())
-		v["Individual.Children:"+k] = list(ind.Children())
+		ind := ind
+		reads := []func(){
+			func() { v["Individual.Names:"+k] = list(ind.Names()) },
+			func() { v["Individual.AllEvents:"+k] = list(ind.AllEvents()) },
+			func() { v["Individual.Births:"+k] = list(ind.Births()) },
+			func() { v["Individual.Deaths:"+k] = list(ind.Deaths()) },
+			func() { v["Individual.Families:"+k] = list(ind.Families()) },
+			func() { v["Individual.Spouses:"+k] = list(ind.Spouses()) },
+			func() { v["Individual.Parents:"+k] = list(ind.Parents()) },
+			func() { v["Individual.Children:"+k] = list(ind.Children()) },
+		}
+		for x := range reads {
+			if rev {
+				reads[len(reads)-1-x]()
+			} else {
+				reads[x]()
+			}
+		}
 		for _, sp := range ind.Spouses() {
 			v["Individual.FamilyWithSpouse:"+k+":"+pm[sp]] = c13Desc(ind.FamilyWithSpouse(sp), pm)
 		}
@@ -180,7 +198,8 @@ func (m *c13Mon) check(cause string) {
 		return
 	}
 	live := c13Views(m.doc, m.pointers, m.tags)
-	want := c13Views(fresh, m.pointers, m.tags)
+	m.checks++
+	want := c13ViewsOrder(fresh, m.pointers, m.tags, m.checks%2 == 0) // every second time in the opposite order
 	keys := map[string]bool{}
 	for k := range live {
 		keys[k] = true
